@@ -1,6 +1,6 @@
 /* c02_dispatch.c - C02: each message unit runs exactly the first command matching its effective header.
  * Bounded-exhaustive: every message of 1..K units (K = 3 quick, 4 thorough) over 24 unit spellings x 2
- * separator styles, against every command table made of an ordered pair or triple of a pool of 10
+ * separator styles, against every command table made of an ordered pair or triple of a pool of 11
  * overlapping patterns (order matters for "first"), plus the whole pool in two orders.
  * Oracle: reference interpreter of the statement (effective header by the path rule, first accepting
  * entry by ref_pattern.h): expected handler log H<tag>(<effective header>) once per unit in order, or
@@ -10,16 +10,17 @@
 #include "ctx.h"
 #include "ref_pattern.h"
 
-static const char * pool[10] = { "AAAA:Bb", "AAAA:Bb?", "AAAA[:Dd]:Ee", "AAAA:Ee", "[:AAAA]:Ff", "Ff", "AAAA:Cc#", "Bb", "*XY", "AAAA:Dd:Ee" };
-static rp_pattern_t pool_rp[10];
+#define NPOOL 11
+static const char * pool[NPOOL] = { "AAAA:Bb", "AAAA:Bb?", "AAAA[:Dd]:Ee", "AAAA:Ee", "[:AAAA]:Ff", "Ff", "AAAA:Cc#", "Bb", "*XY", "AAAA:Dd:Ee", "GG#:HH#" };
+static rp_pattern_t pool_rp[NPOOL];
 static const char * spell[] = {
     "AAAA:Bb", "aaaa:BB?", ":AAAA:Bb", "aaaa:ee", "AAAA:DD:EE", "Bb", "BB?", "Ee", "Dd:Ee", ":Ee", "Ff", ":FF", "AAAA:Ff",
-    "Cc1", "AAAA:CC23", "CC", ":AAAA:Cc1234", "aaaa:cc00056", "*XY", "*xy?", "ZZ", "AAAA:ZZ", "ZZ:YY", ":AAAA:Dd:Zz", "AAAA", "Ee?",
+    "Cc1", "AAAA:CC23", "CC", ":AAAA:Cc1234", "aaaa:cc00056", "GG3:HH4", "HH5", "*XY", "*xy?", "ZZ", "AAAA:ZZ", "ZZ:YY", ":AAAA:Dd:Zz", "AAAA", "Ee?",
 };
 #define NSPELL ((int) (sizeof spell / sizeof spell[0]))
 
-static scpi_command_t table[12];
-static int tab_ids[12], tab_n;
+static scpi_command_t table[NPOOL + 2];
+static int tab_ids[NPOOL + 2], tab_n;
 
 static scpi_result_t handler(scpi_t * c) {
     int32_t nums[3] = {-7, -7, -7};
@@ -154,26 +155,26 @@ static void set_table(const int * ids, int n) {
 }
 
 int main(int argc, char ** argv) {
-    int a, b, c, ids[10], K;
+    int a, b, c, ids[NPOOL], K;
     unsigned long long ntab = 0;
     mc_init(argc, argv);
     mc_tail_poison = 1;
     tc_log_flush = 0;        /* queries of this table answer nothing: the (empty) response framing is C06's subject */
-    for (a = 0; a < 10; a++) { pool_rp[a] = rp_parse(pool[a]); if (!pool_rp[a].ok) { printf("VIOL idx=0 sig=c02/harness :: pattern %s\n", pool[a]); return 2; } }
+    for (a = 0; a < NPOOL; a++) { pool_rp[a] = rp_parse(pool[a]); if (!pool_rp[a].ok) { printf("VIOL idx=0 sig=c02/harness :: pattern %s\n", pool[a]); return 2; } }
     tc_init(&T, table, 256, 16);
     K = mc_thorough ? 4 : 3;
-    for (a = 0; a < 10; a++) for (b = 0; b < 10; b++) {
+    for (a = 0; a < NPOOL; a++) for (b = 0; b < NPOOL; b++) {
         if (a == b) continue;
         ids[0] = a; ids[1] = b; set_table(ids, 2); run_table(K); ntab++;
-        for (c = 0; c < 10; c++) {
+        for (c = 0; c < NPOOL; c++) {
             if (c == a || c == b) continue;
             ids[2] = c; set_table(ids, 3); run_table(mc_thorough ? 3 : 2); ntab++;
         }
     }
-    for (a = 0; a < 10; a++) ids[a] = a;
-    set_table(ids, 10); run_table(K); ntab++;
-    for (a = 0; a < 10; a++) ids[a] = 9 - a;
-    set_table(ids, 10); run_table(K); ntab++;
+    for (a = 0; a < NPOOL; a++) ids[a] = a;
+    set_table(ids, NPOOL); run_table(K); ntab++;
+    for (a = 0; a < NPOOL; a++) ids[a] = NPOOL - 1 - a;
+    set_table(ids, NPOOL); run_table(K); ntab++;
     if (mc_shard == 0) {
         mc_sample("table {AAAA[:Dd]:Ee, AAAA:Ee} message [AAAA:Bb;Ee;*XY;Ee\\n] -> H(AAAA:Bb) H(AAAA:Ee) by the FIRST entry, H(*XY), -113 for Ee");
         mc_sample("table {AAAA:Cc#, Bb} message [aaaa:BB? ; ZZ ; Cc1\\n]");
